@@ -14,4 +14,5 @@ OpsPair == {"union", "intersection"}
 OpsUnary == {"shape", "center", "extent", "slices"}
 OpsFloat == {"from_float"}
 OpsAssoc == {"assoc_union", "assoc_inter"}
+OpsRegion == {"to_region", "as_artist"}
 =============================================================================
